@@ -276,6 +276,9 @@ void h_memtable_get(void) {
   /* the entry the seek lands on */
   g_found = in_found != 0; g_entry = entry;
   g_e_khdr = in_e_khdr; g_e_iklen = in_e_iklen; g_e_vhdr = in_e_vhdr; g_e_vlen = in_e_vlen;
+#ifdef MEM_GET_KHDR
+  ASSUME(in_e_khdr == MEM_GET_KHDR);   /* case split over the length of the entry's key-length prefix */
+#endif
   if (g_found) {
     ASSUME(in_e_khdr >= 1 && in_e_khdr <= 5 && in_e_vhdr >= 1 && in_e_vhdr <= 5 && in_e_iklen >= 8 && in_e_iklen <= 0xffffffffu && in_e_vlen <= 0xffffffffu);
     ASSUME(in_e_n == in_e_khdr + in_e_iklen + in_e_vhdr + in_e_vlen);
